@@ -387,6 +387,8 @@ def main(tier):
     if not quick:
         from . import memcheck_layer
         memcheck_layer.run(col, PROP, ('dofiles',), time.time() + 300)
+        from . import miri_layer
+        miri_layer.unit_tests(col, PROP, ('paths::tests',), time.time() + 400)     # (the crate's own candidate-order vectors, under Miri)
     rc = col.finish()
     common.cleanup_scratch()
     return rc
